@@ -1043,7 +1043,7 @@ func (g *Gen) numFrame(maxRows int, nanOK bool, badProb float64) Frame {
 
 func planC16(g *Gen, tier string) GenOutput {
 	res := GenOutput{Stats: map[string]int{}}
-	n := scale(tier, 350, 6000)
+	n := scale(tier, 350, 3500)
 	for i := 0; i < n; i++ {
 		f := g.numFrame(6, true, 0.2)
 		ops := []Op{{K: "agg", F: 0, Agg: "sum"}, {K: "agg", F: 0, Agg: "mean"}, {K: "agg", F: 0, Agg: "min"}, {K: "agg", F: 0, Agg: "max"}, {K: "describe", F: 0}}
